@@ -130,7 +130,7 @@ theorem peer_call_is_env (s : St) (r : Req) (j : Nat) (d : Side) (hd : s.others[
       · exact Envs.refl _
       · split
         · exact Envs.refl _
-        · exact put n x _ (fun h => ⟨x, hx, h⟩)
+        · exact put n { x with mf := (applyUpDec valid x.mf).getD x.mf } _ (fun h => ⟨x, hx, h⟩)
   | deleteXR n fg =>
     simp only [exec]
     split
